@@ -83,7 +83,8 @@ def wtS (fs : List FuncSig) (rt : Ty) : TS → Bool
   | .expr e => wtE fs e
   | .decl _ ty _ init => wtE fs init && typeOf init == ty && tyOK ty
   | .assign l r => wtE fs l && wtE fs r && typeOf r == typeOf l && isAssignableTE l == some false
-  | .incassign l r op ty => wtE fs l && wtE fs r && ty == typeOf l && isAssignableTE l == some false && isArithOp op
+  | .incassign l r op ty => wtE fs l && wtE fs r && ty == typeOf l && isAssignableTE l == some false && isArithOp op &&
+      coercible l .int && coercible r .int
   | .ret (some e) => wtE fs e && typeOf e == rt && rt != .empty
   | .ret none => rt == .empty
   | .brk => true
